@@ -365,6 +365,72 @@ pub fn run_session(ctx: &Ctx, steps: &[Step], rep: &mut Report) -> Result<(), Vi
     Ok(())
 }
 
+/// One engine process plays on along a game: its own answer, then a generated reply, go again.
+pub fn flow_session(ctx: &Ctx, mut game: Game, gos: usize, replies: &[u16], rep: &mut Report) -> Result<(), Violation> {
+    let mut eng = match Engine::spawn(&ctx.engine, &[]) {
+        Ok(e) => e,
+        Err(e) => {
+            rep.infra_errors.push(format!("cannot spawn engine: {e}"));
+            return Ok(());
+        }
+    };
+    if !eng.ready(Duration::from_secs(10)) {
+        rep.infra_errors.push("engine did not answer the first isready".into());
+        return Ok(());
+    }
+    const GOS: [&str; 6] = ["go depth 3", "go nodes 3000", "go depth 4", "go movetime 20", "go nodes 20000", "go depth 2"];
+    let mut steps: Vec<Step> = vec![];
+    for k in 0..gos {
+        if game.cur.legal_moves().is_empty() {
+            break;
+        }
+        let go = GOS[pick16(replies.get(k).copied().unwrap_or(0).wrapping_mul(7), GOS.len())];
+        let st = Step { pre: vec![], position: position_command(&game.start, &game.moves_uci()), go: go.into(), fen_after: game.cur.to_fen(), time_bound_ms: if go.contains("movetime") { Some(20) } else { None }, classes: vec!["flow"], nontrivial: k > 0 };
+        steps.push(st.clone());
+        eng.send(&st.position);
+        eng.send(&st.go);
+        rep.eval(1);
+        let deadline = Duration::from_millis(st.time_bound_ms.map_or(UNBOUNDED_DEADLINE_MS, |t| t + ALLOWANCE_MS));
+        let ev = eng.wait_for(deadline, |e| (e.stream == Stream::Out && e.line.starts_with("bestmove")) || (e.stream == Stream::Err && uciproc::is_panic_line(&e.line)) || e.eof);
+        let mut r = steps_json(&steps);
+        r["transcript"] = json!(eng.transcript(30));
+        let mv = match ev {
+            Some(e) if e.stream == Stream::Out => e.line.split_whitespace().nth(1).unwrap_or("").to_string(),
+            Some(e) if e.eof => return Err(Violation::new("one-bestmove", "one-bestmove/engine-exited/flow", format!("go #{} of a game flow ('{}' at {}): the engine closed its output", k + 1, st.go, st.fen_after), r)),
+            Some(e) => {
+                let site = e.line.rsplit("panicked at ").next().unwrap_or("").split(':').next().unwrap_or("").rsplit('/').next().unwrap_or("").to_string();
+                eng.settle(Duration::from_millis(30));
+                let what = eng.stderr_lines().iter().rev().take(3).map(|x| x.line.clone()).collect::<Vec<_>>().join(" | ");
+                let mut r = steps_json(&steps);
+                r["transcript"] = json!(eng.transcript(30));
+                return Err(Violation::new("one-bestmove", &format!("one-bestmove/search-thread-panic/{site}/flow"), format!("go #{} of a game flow ('{}' at {}): the search thread panicked and no bestmove was sent ({what})", k + 1, st.go, st.fen_after), r));
+            }
+            None => return Err(Violation::new("in-time", "in-time/no-bestmove/flow", format!("go #{} of a game flow ('{}' at {}): no bestmove within {} ms", k + 1, st.go, st.fen_after, deadline.as_millis()), r)),
+        };
+        let Some(m) = game.cur.find_legal(&mv) else {
+            return Err(Violation::new("legal", "legal/illegal-bestmove/flow", format!("go #{} of a game flow ('{}' at {}): bestmove {mv} is not legal", k + 1, st.go, st.fen_after), r));
+        };
+        rep.class("flow:go");
+        if k > 0 {
+            rep.nontrivial(o::hash_str(&format!("flow|{}|{}", st.fen_after, st.go)));
+        }
+        game.play(m);
+        let legal = game.cur.legal_moves();
+        if legal.is_empty() {
+            break;
+        }
+        game.play(legal[pick16(replies.get(k).copied().unwrap_or(0), legal.len())]);
+    }
+    if !eng.ready(Duration::from_secs(3)) {
+        let mut r = steps_json(&steps);
+        r["transcript"] = json!(eng.transcript(30));
+        return Err(Violation::new("accepts-next", "accepts-next/no-readyok/flow", "no readyok after a game flow".to_string(), r));
+    }
+    eng.send("quit");
+    let _ = eng.wait_exit(Duration::from_secs(2));
+    Ok(())
+}
+
 pub const SHARDS: usize = 8;
 
 pub fn run(ctx: &Ctx) -> Report {
@@ -390,6 +456,46 @@ pub fn run(ctx: &Ctx) -> Report {
             }
         }
     }
+    // searches that run out of tree long before they run out of budget (all 255 iterations of a
+    // tiny tree): the answer must still come by itself
+    if ctx.shard_index() == 1 {
+        for (fen, go) in [
+            ("6k1/5ppp/8/8/8/8/8/R5K1 w - - 0 1", "go nodes 200000"),
+            ("8/8/8/3k4/8/3K4/8/8 w - - 0 1", "go nodes 3000000"),
+            ("8/8/8/3k4/8/3K4/8/8 w - - 0 1", "go depth 255"),
+            ("6k1/5ppp/8/8/8/8/8/R5K1 w - - 0 1", "go depth 255 nodes 100000000"),
+        ] {
+            let st = Step { pre: vec![], position: format!("position fen {fen}"), go: go.into(), fen_after: fen.into(), time_bound_ms: None, classes: vec!["tiny-tree-large-budget"], nontrivial: true };
+            let st2 = Step { pre: vec![], position: "position startpos".into(), go: "go depth 2".into(), fen_after: Pos::startpos().to_fen(), time_bound_ms: None, classes: vec!["regression"], nontrivial: true };
+            match run_session(ctx, &[st, st2], &mut rep) {
+                Ok(()) => {}
+                Err(v) => {
+                    if let Some(k) = ctx.is_known(&v.sig) {
+                        rep.known(&v.sig, &k.text);
+                    } else {
+                        rep.violation(v);
+                    }
+                }
+            }
+        }
+    }
+    // self-play flow: 24-40 consecutive small searches along one game in ONE engine process
+    let flows = ctx.tier.pick(16, 320) / ctx.shard_count() as u32;
+    let fstrat = (gen::game_strategy(16), proptest::collection::vec(any::<u16>(), 40), 24usize..=40);
+    run_prop(ctx, "c09-flow", flows, 12, fstrat, &mut rep, |(g, replies, gos), rep| {
+        let mix = gen::StartMix { startpos: 5, corpus: 6, synth: 1, pattern: 2 };
+        let Some((start, _)) = gen::start_pos(&g.start, &corp, mix) else { return Ok(()) };
+        let mut game = Game::new(start);
+        for &ch in &g.choices {
+            let l = game.cur.legal_moves();
+            if l.is_empty() {
+                break;
+            }
+            game.play(gen::choose_move(&game, &l, g.weighted, ch));
+        }
+        rep.class("flow:session");
+        flow_session(ctx, game, *gos, replies, rep)
+    });
     let cases = ctx.tier.pick(400, 8000) / ctx.shard_count() as u32;
     run_prop(ctx, "c09", cases, 16, strategy(), &mut rep, |c, rep| {
         let steps = build_steps(c, &corp);
@@ -426,7 +532,7 @@ pub fn replay(ctx: &Ctx, case: &Value) -> Report {
 }
 
 pub const LEVEL: &str = "exploration";
-pub const RULE: &str = "UCI sessions against the real engine binary: 1..5 consecutive (position, go) pairs (every third one continues the previous pair's game by 1..3 plies, so its root lies inside the tree the previous go cached), each optionally preceded by idle commands (stop, isready, ucinewgame, setoption, uci); positions with >= 1 legal move from startpos / corpus / synthesised / pattern starts (in-check and near-stalemate positions included) plus up to 30 plies of play, and - only under a time-bounded go - capture-saturated constructions (5-9 queens a side); limits = any subset of {depth 1..255, nodes 1..200000 log-spaced, movetime 0..400 ms, wtime/btime 0..60000 ms, winc/binc 0..100 ms}, with depth <= 5 when nothing else bounds the work. Oracle per go: exactly one bestmove line, legal per the rules oracle, arriving before min(movetime, own clock + increment) + 3 s (60 s when only depth/nodes bound the search); a search-thread panic on stderr settles 'no bestmove' at once; then isready -> readyok within 3 s; bestmove count == go count at session end. Non-trivial = a limit can cut the first iteration (nodes <= 2000, time bound <= 20 ms, depth <= 2, only the opponent's clock), or the position is in check or has <= 3 legal moves, or it is the 2nd+ go of a session; distinct by (position, go command).";
+pub const RULE: &str = "UCI sessions against the real engine binary: 1..5 consecutive (position, go) pairs (every third one continues the previous pair's game by 1..3 plies, so its root lies inside the tree the previous go cached), each optionally preceded by idle commands (stop, isready, ucinewgame, setoption, uci); positions with >= 1 legal move from startpos / corpus / synthesised / pattern starts (in-check and near-stalemate positions included) plus up to 30 plies of play, and - only under a time-bounded go - capture-saturated constructions (5-9 queens a side); limits = any subset of {depth 1..255, nodes 1..200000 log-spaced, movetime 0..400 ms, wtime/btime 0..60000 ms, winc/binc 0..100 ms}, with depth <= 5 when nothing else bounds the work. Plus self-play flows: 24-40 consecutive small searches (depth 2-4 / nodes 3000-20000 / movetime 20) along one game in ONE engine process (the engine's answer, a generated reply, go again), and tiny trees under huge budgets (mate in one / bare kings with 'go nodes 200000..3000000' and 'go depth 255'). Oracle per go: exactly one bestmove line, legal per the rules oracle, arriving before min(movetime, own clock + increment) + 3 s (60 s when only depth/nodes bound the search); a search-thread panic on stderr settles 'no bestmove' at once; then isready -> readyok within 3 s; bestmove count == go count at session end. Non-trivial = a limit can cut the first iteration (nodes <= 2000, time bound <= 20 ms, depth <= 2, only the opponent's clock), or the position is in check or has <= 3 legal moves, or it is the 2nd+ go of a session; distinct by (position, go command).";
 pub const ASSUMPTIONS: &[&str] = &[
     "the rules oracle decides legality of the answer",
     "deadlines are generous stand-ins for 'in time' (limit + 3 s); a harness-side spawn failure or a missing first readyok is reported as inconclusive (exit 2), never as a violation",
